@@ -18,8 +18,41 @@ SPEC = gc.Spec(
           'against the model')
 
 
+CLONE_PROBE = [
+    # Task.clone(**kwargs): the keywords are applied one after the other; one that is rejected must undo the relations set before it
+    {'source': 'free', 'kwargs': [['parent', 'p'], ['estimate', -1]]},
+    {'source': 'free', 'kwargs': [['parent', 'b'], ['spent', -2]]},
+    {'source': 'free', 'kwargs': [['predecessors', ['b']], ['estimate', -1]]},
+    {'source': 'free', 'kwargs': [['successors', ['a']], ['estimate', -1]]},
+    {'source': 'free', 'kwargs': [['parent', 'p'], ['wbs', 'w']]},                 # a read-only property
+    {'source': 'free', 'kwargs': [['parent', 'p'], ['predecessors', ['p']]]},      # the parent as a dependency
+    {'source': 'member', 'kwargs': [['parent', 'b'], ['estimate', -1]]},           # the clone of a member carries its id: rejected at once
+    {'source': 'free', 'kwargs': [['parent', 'p'], ['estimate', 3]]},              # control: accepted
+    {'source': 'free', 'kwargs': [['estimate', -1], ['parent', 'p']]},             # control: rejected before anything is set
+]
+
+
+def clone_probe(ctx):
+    outs = ctx.impl_run('c15x_impl', CLONE_PROBE)
+    stat = {'cases': len(CLONE_PROBE), 'raised': 0, 'returned': 0}
+    for c, o in zip(CLONE_PROBE, outs):
+        if o['code'] == 0:
+            stat['returned'] += 1
+            continue
+        stat['raised'] += 1
+        if o['before'] != o['after']:
+            ctx.failure('C15/clone/rejected-keyword-leaves-the-clone-attached',
+                        'Task.clone(%s) raised %s and changed the relations of existing tasks' % (
+                            ', '.join('%s=%r' % (k, v) for k, v in c['kwargs']), o.get('exc')), {'case': c, 'observed': o})
+    return stat
+
+
 def run(ctx):
+    ctx.coverage_clone = clone_probe(ctx)
     gc.run_property(ctx, SPEC)
+    dist = dict(ctx.coverage.get('distribution') or {})
+    dist['probe_Task_clone_with_relation_keywords'] = ctx.coverage_clone
+    ctx.coverage['distribution'] = dist
 
 
 def replay(ctx, rep):
